@@ -3,6 +3,7 @@ import random
 
 from common import F, cq, cql, cqll, cres, clist, ctuple, fsl, fs, pts_json
 
+PREWARM = False      # see impl_runner: no float pre-run for this stream
 COQ_MODULE = "NurbsV.Check.C20"
 CHECK_FN = "check_case"
 CASE_TYPE = "case"
